@@ -50,8 +50,17 @@ ASSUMPTIONS = [
     'False) before it is descended into / written (a hostile server can list a name twice: symlink, then directory '
     'or file).  Links that already existed on disk, and races between the test and the use, are outside the contract',
     'the file-system objects handed to _copy / _begin_copy are LocalFS or SFTPClient (the two implementations of '
-    '_SFTPFSProtocol, both under contract for basename / compose_path); their I/O methods (stat, mkdir, open, '
-    'setstat, symlink, scandir) touch exactly the path they are given',
+    '_SFTPFSProtocol, both under contract for basename / compose_path).  For LocalFS - the destination of every '
+    'download - isdir / exists / mkdir / symlink / setstat / open are under contract (exactly the path and flags '
+    'given reach os.*), and so is _setstat; for SFTPClient as a destination (remote-to-remote copy, upload) the '
+    'I/O methods are assumed to touch exactly the path they are given',
+    '_setstat: os.truncate has no follow_symlinks form, so a size in the attributes is applied through a link even '
+    'with follow_symlinks=False; no download path passes a size (the SFTP copy and the SCP sink build attributes '
+    'without one), server-side lsetstat with a size is a functional matter inside the root',
+    '_SFTPFileCopier.__init__/run are verified through the C12 contracts re-registered under C13 (opens exactly '
+    "(_dstpath, 'wb') on _dstfs); scp() / get / mget / put / mput / copy / mcopy / _scp_handler / "
+    'SFTPServerHandler are covered by AST scans (argument order, single binding, whitelist of callees), not by '
+    'symbolic execution',
     'nested activations (_recv_dir/_recv_file/_recv_files, the recursive _copy, SFTPGlob._match) are used through '
     'the contract "works at and below the path it is given", which is what each of them is verified against',
     'cross-check replays are skipped for _copy, _begin_copy, _match_pattern, realpath, readlink, symlink (they need a '
